@@ -5,7 +5,7 @@ import math
 
 ID = "C19"
 THEOREM_MODULE = "SimVerif.Props.C19"
-NONTRIVIAL_FLAGS = {"rotated", "large", "small", "wide", "far", "close", "negative-diff", "negative", "multi-turn"}
+NONTRIVIAL_FLAGS = {"rotate-after-gen", "rotated", "large", "small", "wide", "far", "close", "negative-diff", "negative", "multi-turn"}
 RULE = ("`box conv` (ltwh -> universal -> ltwh), `box poly` (vertices, area, radius), `box eq`/`box beq` on pairs differing in exactly one coordinate by +-delta for delta "
         "across the EPS boundary (both argument orders are evaluated by the executor), `box norm` over angles in [-50,50]; magnitudes 1e-2..1e4; "
         "non-trivial = rotated / large / small / wide box, pair with a coordinate clearly beyond or clearly within EPS, a negative difference, negative or multi-turn angle; distinct = distinct request line")
@@ -61,6 +61,8 @@ def generate(rng, tier):
         cases.append(["box conv %s" % " ".join(f32tok(x) for x in [l, t, w, h, rng.choice([1.0, 0.5])])])
         b = rand_box(rng, region=mag, smin=0.01, smax=rng.choice([1, 60, 1000]))
         cases.append(["box poly %s" % utok(*b)])
+        # gen_vertices() then the consuming rotate(): the box must not carry / clip with the polygon of the old angle
+        cases.append(["box polyrot %s %s" % (utok(*b), f32tok(rng.choice([rng.uniform(-3.2, 3.2), math.pi / 2, 0.0, 1.0])))])
         cases.append(["box norm %s" % f32tok(rng.choice([rng.uniform(-50, 50), rng.uniform(-7, 7), 0.0, 2 * math.pi, -2 * math.pi, rng.uniform(0, 6.28)]))])
     cases += eq_pairs(rng, n)
     return cases
